@@ -116,7 +116,9 @@ int32_t jls_raw_wr(struct jls_raw_s * self, struct jls_chunk_header_s * hdr, con
         return rc;
     }
     if (hdr->payload_length == 0) {
-        /* raw.c: nothing written, last_payload_length keeps its value */
+        if (st_index(st_pos) < 0 || st_index(st_pos) + 1 == (int) st_n) {
+            st_last_payload_length = 0;      /* raw.c: nothing written; an appended chunk without payload has payload length 0 */
+        }
     } else {
         rc = jls_raw_wr_payload(self, hdr->payload_length, payload);
         if (rc) {
